@@ -450,25 +450,38 @@ func c16r7(c *Ctx) {
 	}
 	n := 0
 	for _, h := range fn.Blocks {
-		// a loop header over the argument pairs: carries an integer φ with a constant step
+		// the loop over the pairs: a loop header (a back edge arrives from a block it dominates) whose loop contains the
+		// storage write of the pairs, directly or in a helper — whatever drives it (a counter, a slice consumed two at a time)
 		isHeader := false
-		for _, in := range h.Instrs {
-			ph, ok := in.(*ssa.Phi)
-			if !ok {
-				break
-			}
-			for _, ed := range ph.Edges {
-				if bo, ok := ed.(*ssa.BinOp); ok && bo.Op == token.ADD && bo.X == ssa.Value(ph) && isInteger(ph.Type()) {
-					if _, isK := constInt(bo.Y); isK {
-						isHeader = true
-					}
-				}
+		for _, pb := range h.Preds {
+			if pb != h && h.Dominates(pb) {
+				isHeader = true
 			}
 		}
 		if !isHeader {
 			continue
 		}
 		inLoop := func(b *ssa.BasicBlock) bool { return b != h && h.Dominates(b) && blockReaches(b, h, nil) }
+		writes := false
+		for _, b := range fn.Blocks {
+			if !inLoop(b) {
+				continue
+			}
+			for _, in := range b.Instrs {
+				ci, ok := in.(ssa.CallInstruction)
+				if !ok {
+					continue
+				}
+				if InvokeName(ci) == "AccountDataHandler.SaveKeyValue" {
+					writes = true
+				} else if sc := ci.Common().StaticCallee(); sc != nil && len(sc.Blocks) > 0 && reachesInvoke(c.P, sc, "AccountDataHandler.SaveKeyValue", 0) {
+					writes = true
+				}
+			}
+		}
+		if !writes {
+			continue
+		}
 		has := false
 		for b := range charges {
 			if inLoop(b) {
